@@ -1263,11 +1263,24 @@ def _parse_header(line: str) -> tuple[str, dict[str, str]]:
             name = p[:i].strip().lower()
             value = p[i + 1 :].strip()
             params.append((name, native_str(value)))
-    decoded_params = email.utils.decode_params(params)
+    try:
+        decoded_params = email.utils.decode_params(params)
+    except (TypeError, ValueError):
+        # Malformed RFC 2231 continuations ("x*" together with "x*0", or an index with
+        # more digits than int() accepts) make decode_params raise. The input is
+        # untrusted, so fall back to the literal parameters instead of failing.
+        decoded_params = list(params)
     decoded_params.pop(0)  # get rid of the dummy again
     pdict = {}
     for name, decoded_value in decoded_params:
-        value = email.utils.collapse_rfc2231_value(decoded_value)
+        try:
+            value = email.utils.collapse_rfc2231_value(decoded_value)
+        except ValueError:
+            # The charset of an extended value comes from the input.
+            # collapse_rfc2231_value only handles unknown codecs (LookupError); codecs
+            # such as idna, punycode or undefined raise UnicodeError and a NUL in the
+            # charset name raises ValueError. Keep the percent-decoded text as is.
+            value = email.utils.unquote(decoded_value[2])
         if len(value) >= 2 and value[0] == '"' and value[-1] == '"':
             value = value[1:-1]
         pdict[name] = value
